@@ -178,6 +178,18 @@ func c20Arith(d ref.DT, e tensor.Engine, op string, shape []int, la, lb, mode st
 		if !ok {
 			return c20obs{}, false
 		}
+		if strings.HasSuffix(mode, ":M") {
+			// a contiguous destination that carries a mask (every second element masked)
+			n := ref.Prod(ds)
+			root := d.MakeSlice(n)
+			mk := make([]bool, n)
+			for i := 0; i < n; i++ {
+				ref.SliceSet(root, i, dv[i])
+				mk[i] = i%2 == 1
+			}
+			D = tensor.New(tensor.WithShape(ds...), tensor.WithBacking(root, mk), tensor.WithEngine(e))
+			rootD = root
+		}
 	}
 	if mode == "mismatch" || mode == "fma:xrs" {
 		// operand b of the same size but another shape (the reversed one): a shape mismatch
@@ -466,12 +478,12 @@ func runC20(r *core.Run) {
 				}
 				laysF := append(append([]string{}, lays...), "F")
 				for _, op := range []string{"Add", "Sub", "Mul", "Div", "FMA", "FMAScalar"} {
-					dmodes := []string{"reuse=a", "reuse=b", "reuse=av", "reuse=bv", "mismatch", "reuse:rs", "incr:rs", "reuse:F", "incr:F"}
+					dmodes := []string{"reuse=a", "reuse=b", "reuse=av", "reuse=bv", "mismatch", "reuse:rs", "incr:rs", "reuse:F", "incr:F", "reuse:M", "incr:M"}
 					if op == "FMA" {
-						dmodes = []string{"fma:xrs", "fma:yrs", "fma:F", "fma"}
+						dmodes = []string{"fma:xrs", "fma:yrs", "fma:F", "fma", "fma:M"}
 					}
 					if op == "FMAScalar" {
-						dmodes = []string{"fma:yrs", "fma:F", "fma"}
+						dmodes = []string{"fma:yrs", "fma:F", "fma", "fma:M"}
 					}
 					for _, mode := range append(dmodes, "safe", "unsafe", "reuse", "incr") {
 						for _, la := range laysF {
